@@ -330,7 +330,7 @@ def run(ctx):
         rng = ctx.rng
         lines, checks = [], []
         v = " ".join("T" if flags[f] else "F" for f in ctl_db.FLAG_NAMES)
-        for i in range(ctx.n(14, 120)):
+        for i in range(ctx.n(18, 120)):
             repo = ctl_db.guarded(ctx, f"repo{i}", lambda i=i: Repo(ctx, env, flags, rng, f"repo{i}"))
             if repo is None:
                 continue
